@@ -43,14 +43,26 @@ fn decode_mask(m: u8) -> String {
 // =============================================================================================
 // child side
 
-/// soft limit: the VM is interrupted (a diverging mutant is not a soundness failure);
-/// hard limit: the child gives up (`exit:97`, reported as `abort:timeout`)
-const SOFT: Duration = Duration::from_secs(6);
-const HARD: Duration = Duration::from_secs(40);
+/// soft limit (CPU time of the child, so that a loaded machine does not change outcomes): the VM
+/// is interrupted — a diverging mutant is not a soundness failure;
+/// hard limit (CPU, or wall clock for a deadlock): the child gives up (`exit:97`, reported as
+/// `abort:timeout`)
+const SOFT_CPU_MS: u64 = 5_000;
+const HARD_CPU_MS: u64 = 40_000;
+const HARD_WALL: Duration = Duration::from_secs(600);
+
+/// CPU time (user + system) this process has used, from /proc/self/stat (100 ticks per second).
+fn cpu_ms() -> u64 {
+    let s = std::fs::read_to_string("/proc/self/stat").unwrap_or_default();
+    let rest = s.rsplit(')').next().unwrap_or("");
+    let f: Vec<&str> = rest.split_whitespace().collect();
+    let t = |i: usize| f.get(i).and_then(|x| x.parse::<u64>().ok()).unwrap_or(0);
+    (t(11) + t(12)) * 10
+}
 
 struct Watch {
     vm: Option<RootedThread>,
-    start: Option<Instant>,
+    start: Option<(Instant, u64)>,
     interrupted: bool,
 }
 
@@ -82,15 +94,32 @@ fn make_vm(mask: u8) -> RootedThread {
     vm
 }
 
+/// At most `n` characters of `s`, with addresses (`0x55f6c3834fb0`) blanked: nothing that
+/// differs between two runs may reach the output files.
 fn short(s: &str, n: usize) -> String {
-    s.chars().take(n).collect()
+    let mut o = String::new();
+    let cs: Vec<char> = s.chars().collect();
+    let mut i = 0;
+    while i < cs.len() && o.chars().count() < n {
+        if cs[i] == '0' && i + 1 < cs.len() && cs[i + 1] == 'x' && i + 2 < cs.len() && cs[i + 2].is_ascii_hexdigit() {
+            o.push_str("0x_");
+            i += 2;
+            while i < cs.len() && cs[i].is_ascii_hexdigit() {
+                i += 1;
+            }
+        } else {
+            o.push(cs[i]);
+            i += 1;
+        }
+    }
+    o
 }
 
 fn classify(msg: &str) -> String {
     if msg.to_ascii_lowercase().contains("interrupted") && !msg.contains("┌─") {
         return "err:interrupted".into();
     }
-    surf::classify_error(msg)
+    short(&surf::classify_error(msg), 400)
 }
 
 impl Child {
@@ -98,14 +127,14 @@ impl Child {
         let watch = Arc::new(Mutex::new(Watch { vm: None, start: None, interrupted: false }));
         let w2 = watch.clone();
         std::thread::spawn(move || loop {
-            std::thread::sleep(Duration::from_millis(25));
+            std::thread::sleep(Duration::from_millis(50));
             let mut w = w2.lock().unwrap();
-            if let Some(st) = w.start {
-                let el = st.elapsed();
-                if el > HARD {
+            if let Some((st, cpu0)) = w.start {
+                let used = cpu_ms().saturating_sub(cpu0);
+                if used > HARD_CPU_MS || st.elapsed() > HARD_WALL {
                     std::process::exit(97);
                 }
-                if el > SOFT && !w.interrupted {
+                if used > SOFT_CPU_MS && !w.interrupted {
                     if let Some(vm) = &w.vm {
                         vm.interrupt();
                     }
@@ -124,7 +153,7 @@ impl Child {
         {
             let mut w = self.watch.lock().unwrap();
             w.vm = vm.cloned();
-            w.start = Some(Instant::now());
+            w.start = Some((Instant::now(), cpu_ms()));
             w.interrupted = false;
         }
         let r = f();
@@ -253,6 +282,7 @@ fn glob_body(k: &str) -> &'static str {
         "str" => "\"s\"",
         "rec" => "{ a = 1, b = \"x\" }",
         "fn" => "\\x -> x #Int+ 1",
+        "pfn" => "\\x -> 1",
         _ => "[1, 2]",
     }
 }
@@ -301,7 +331,7 @@ fn child_glob() {
         }
         let text = glob_text(i, k);
         let load = match gv::catch(|| vm.load_script("m", &text)) {
-            Err(p) => format!("panic {}", short(&p, 80)),
+            Err(p) => format!("panic {}", short(&p, 200)),
             Ok(Ok(())) => "ok".into(),
             Ok(Err(e)) => classify(&e.to_string()),
         };
@@ -314,10 +344,13 @@ fn child_glob() {
         // the type an importer sees
         let (importer, ity) = match gv::catch(|| vm.typecheck_str("t", "import! m", None)) {
             Ok(Ok((_, t))) => {
+                use gluon::base::types::TypeExt;
+                let s0 = format!("{}", t);
+                let t = t.remove_forall();
                 let s = format!("{}", t);
                 let name = t.alias_ident().map(|id| id.declared_name().to_string()).unwrap_or_default();
                 let io = name == "IO" || name == "std.io.IO" || s.starts_with("IO ") || s.starts_with("std.io.IO");
-                (if io { "io" } else { "plain" }, short(&s.replace('\n', " "), 80))
+                (if io { "io" } else { "plain" }, short(&s0.replace('\n', " "), 80))
             }
             Ok(Err(e)) => ("error", short(&e.to_string(), 80)),
             Err(p) => ("panic", short(&p, 80)),
@@ -331,8 +364,11 @@ fn child_glob() {
                 (if is_shape_complaint(&s) { "wrong".to_string() } else { "ok".to_string() }, short(s.lines().next().unwrap_or(""), 160))
             }
         };
+        let ice = [&load, &stored, &ity, &use_msg].iter().any(|m| m.contains("ICE"))
+            && (load.starts_with("panic") || stored.starts_with("panic") || importer == "panic" || use_ == "panic");
+        let payload = if ice { "(ice)".to_string() } else { format!("(stored {} importer {} use {})", stored, importer, use_) };
         json!({
-            "payload": format!("(stored {} importer {} use {})", stored, importer, use_),
+            "payload": payload, "ice": ice,
             "use": use_, "use_msg": use_msg, "load": load, "ity": ity, "text": text,
         })
         .to_string()
@@ -491,19 +527,39 @@ fn panic_fp(out: &str) -> String {
     if msg == "Pattern" {
         return "panic:Pattern".into();
     }
-    format!("panic:{}", strip_noise(&msg, 40))
+    if msg.contains("Expected IO type found") {
+        return "panic:ICE:run_io-on-generalised-IO-type".into();
+    }
+    // `called `Result::unwrap()` on an `Err` value: "<the interesting part>"`
+    if msg.starts_with("called `") {
+        if let Some(i) = msg.find("value: ") {
+            let tail = msg[i + 7..].trim_matches(|c| c == '"' || c == '\\' || c == ' ');
+            return format!("panic:{}", panic_site(tail));
+        }
+    }
+    format!("panic:{}", panic_site(&msg))
 }
 
-/// The mutation kinds that put a record literal against an expected record type naming the same
-/// fields in another order. Whatever goes wrong in such a mutant is fingerprinted by this call
-/// shape and the category of the failure (the concrete complaint depends on the field types).
+/// The part of a panic message that names the site: up to the first quoted thing, digits out.
+fn panic_site(msg: &str) -> String {
+    let head = msg.split(|c| c == '`' || c == '"' || c == '\'').next().unwrap_or("");
+    let m: String = head.chars().filter(|c| !c.is_ascii_digit()).take(40).collect();
+    m.trim().trim_end_matches(|c| c == ':' || c == '(' || c == ',').trim().to_string()
+}
+
+/// Mutation kinds that aim at one particular blind spot: whatever goes wrong in such a mutant is
+/// fingerprinted by that call shape and the category of the failure (the concrete complaint
+/// depends on the types of the fields / of the bound value, so it would not be a stable key).
+///  * a record literal against an expected record type naming the same fields in another order,
+///  * `rec let x = <not a function or record literal>`.
 fn family_fp(origin: &str, fp: &str) -> String {
-    if origin == "mutant:annotate-permuted" || origin == "mutant:reuse-permuted" {
-        let cat = fp.split(':').next().unwrap_or("other");
-        format!("record-literal-order:{}", cat)
-    } else {
-        fp.to_string()
-    }
+    let family = match origin {
+        "mutant:annotate-permuted" | "mutant:reuse-permuted" => "record-literal-order",
+        "mutant:let-to-rec" => "rec-value-binding",
+        _ => return fp.to_string(),
+    };
+    let cat = fp.split(':').next().unwrap_or("other");
+    format!("{}:{}", cat, family)
 }
 
 fn outcome_class(out: &str) -> String {
@@ -574,8 +630,16 @@ fn judge(case: &Case, res: &Result<String, (String, String)>, out: &mut Out) -> 
                 format!("running it (it had been accepted) under {}", decode_mask(mask))
             };
             out.count(&format!("died:{}:{}", class, stage.split(' ').next().unwrap_or("")));
+            // the type checker dying is `abort:<class>`; dying later names the stage
+            let fp = if v.accepted {
+                format!("abort:run:{}", class)
+            } else if stage.starts_with("load") {
+                format!("abort:load:{}", class)
+            } else {
+                format!("abort:{}", class)
+            };
             v.fails.push(Fail {
-                fp: format!("abort:{}", class),
+                fp,
                 what: format!("the process died ({}) on a program ({}) while {}", class, case.origin, during),
                 mask,
             });
@@ -590,7 +654,7 @@ fn judge(case: &Case, res: &Result<String, (String, String)>, out: &mut Out) -> 
         "panic" => {
             let msg = r["tc_msg"].as_str().unwrap_or("");
             v.fails.push(Fail {
-                fp: format!("panic:typecheck:{}", strip_noise(msg, 40)),
+                fp: format!("panic:typecheck:{}", panic_site(msg)),
                 what: format!("the type checker panicked on a program ({}): {}", case.origin, short(msg, 160)),
                 mask: 0,
             });
@@ -599,6 +663,12 @@ fn judge(case: &Case, res: &Result<String, (String, String)>, out: &mut Out) -> 
         "reject" => {
             out.count(&format!("reject:{}", case.origin_key()));
             if case.origin == "generated" {
+                if let Ok(path) = std::env::var("C02_DUMP") {
+                    // debugging aid: the generator's slips
+                    if let Ok(mut f) = std::fs::OpenOptions::new().create(true).append(true).open(path) {
+                        let _ = writeln!(f, "=== {}\n{}", r["tc_msg"].as_str().unwrap_or(""), case.src);
+                    }
+                }
                 out.count(&format!("reject-reason:{}", short(r["tc_msg"].as_str().unwrap_or(""), 70)));
             }
         }
@@ -636,7 +706,13 @@ fn judge(case: &Case, res: &Result<String, (String, String)>, out: &mut Out) -> 
                         }
                         if sh["r"] == "bad" {
                             v.fails.push(Fail {
-                                fp: format!("shape:{}", sh["fp"].as_str().unwrap_or("")),
+                                // D6 seen through the shape walk: the unwrapped global of an IO-typed
+                                // module happens to be callable, so the VM does not complain
+                                fp: if case.has_io && mask & RUN_IO != 0 {
+                                    "shape:import-of-io-module-under-run_io".to_string()
+                                } else {
+                                    format!("shape:{}", sh["fp"].as_str().unwrap_or(""))
+                                },
                                 what: format!(
                                     "a program accepted by the type checker ({}) ran without complaint under {} but its result does not have the representation of its type `{}`: {}; value {}",
                                     case.origin,
@@ -766,6 +842,22 @@ fn masks_for(i: usize, rng: &mut gv::rng::Rng, thorough: bool, all32_every: usiz
         }
     }
     m
+}
+
+/// A corpus file may name the masks it needs in the quick tier on its first line:
+/// `// masks: 0,8` (default: mask 0 only; the thorough tier uses all 32).
+fn corpus_masks(src: &str) -> Vec<u8> {
+    let first = src.lines().next().unwrap_or("");
+    match first.strip_prefix("// masks:") {
+        Some(rest) => {
+            let mut m: Vec<u8> = rest.split(',').filter_map(|x| x.trim().parse().ok()).filter(|x| *x < 32).collect();
+            if !m.contains(&0) {
+                m.insert(0, 0);
+            }
+            m
+        }
+        None => vec![0],
+    }
 }
 
 fn has_named(t: &Ty) -> bool {
@@ -911,7 +1003,7 @@ fn glob_cases(out: &mut Out, thorough: bool) {
         }
         for r in [false, true] {
             for i in [false, true] {
-                for k in ["int", "str", "rec", "fn", "arr"] {
+                for k in ["int", "str", "rec", "fn", "arr", "pfn"] {
                     inputs.push(json!({"r": r, "i": i, "k": k, "o": o}).to_string());
                     keys.push((r, i, k, o));
                 }
@@ -952,6 +1044,18 @@ fn glob_cases(out: &mut Out, thorough: bool) {
                     v["ity"].as_str().unwrap_or(""),
                     use_msg
                 );
+                if v["load"].as_str().unwrap_or("").starts_with("panic") {
+                    let fp = panic_fp(v["load"].as_str().unwrap());
+                    let what = format!(
+                        "module `m` = `{}` (accepted by the checker) panicked while being loaded with run_io={}, optimize={}: {}",
+                        v["text"].as_str().unwrap_or("").trim().replace('\n', " "),
+                        r,
+                        o,
+                        v["load"].as_str().unwrap()
+                    );
+                    out.oracle_fail(&fp, &what, replay(v["text"].as_str().unwrap_or("")));
+                    out.count(&format!("oracle:{}", fp));
+                }
                 match v["use"].as_str().unwrap() {
                     "wrong" => {
                         let fp = if r && i {
@@ -1021,7 +1125,7 @@ fn replay_main(args: &Args, path: &std::path::Path) {
         println!("=> no property failure");
     }
     for f in &verdict.fails {
-        println!("=> FAILURE {}: {}", f.fp, f.what);
+        println!("=> FAILURE {}: {}", family_fp(&case.origin, &f.fp), f.what);
     }
     record(&case, &verdict, &mut out, 0);
     out.finish();
@@ -1061,9 +1165,15 @@ fn main() {
     }
     let mut out = Out::new(&args.out);
     let thorough = args.thorough();
-    let (n_gen, n_scen) = if thorough { (4000, 400) } else { (300, 40) };
-    // thorough: all 32 masks on every `all32_every`-th program, 8 masks otherwise
-    let all32_every = 1;
+    let (mut n_gen, mut n_scen) = if thorough { (4000, 400) } else { (300, 40) };
+    // experiments only: `C02_N=<generated programs>` overrides the size of the run
+    if let Some(n) = std::env::var("C02_N").ok().and_then(|x| x.parse::<usize>().ok()) {
+        n_gen = n;
+        n_scen = (n / 8).max(1);
+    }
+    // thorough: all 32 masks on every 4th program, mask 0 + 7 other masks (one on a rota, the
+    // rest sampled) otherwise — all 32 on every program does not fit 20 minutes on a busy machine
+    let all32_every = 4;
     out.add("plan:all-32-masks-every-nth-program", if thorough { all32_every as u64 } else { 0 });
     let mut cases: Vec<Case> = vec![];
 
@@ -1074,11 +1184,12 @@ fn main() {
         files.sort();
         for (i, p) in files.iter().enumerate() {
             let src = std::fs::read_to_string(p).unwrap();
+            let src_masks = src.clone();
             cases.push(Case {
                 origin: format!("corpus:{}", p.file_name().unwrap().to_string_lossy()),
                 name: format!("c{}", i),
                 src,
-                masks: if thorough { (0..32).collect() } else { vec![0] },
+                masks: if thorough { (0..32).collect() } else { corpus_masks(&src_masks) },
                 modules: vec![],
                 has_io: false,
                 gen: None,
